@@ -125,9 +125,52 @@ def check_c10(prop, tier):
     return rep.finish(native.find_witness)
 
 
+def scan_time_base(rep):
+    """C13: the frame the Verus unit assumes of every callee of run - nobody else assigns the time-base fields"""
+    import glob
+    texts = {}
+    for f in glob.glob(os.path.join(REPO, "src/**/*.rs"), recursive=True):
+        src = open(f).read()
+        i = src.find("#[cfg(test)]\nmod tests")
+        texts[os.path.relpath(f, REPO)] = src if i < 0 else src[:i]
+    def assigns(field):
+        out = []
+        for f, s in texts.items():
+            if f.endswith("testhelper.rs"):
+                continue
+            for m in re.finditer(r"\b%s\s*(?:[-+*/]?=)(?!=)" % re.escape(field), s):
+                ln = s.count("\n", 0, m.start()) + 1
+                line = s.splitlines()[ln - 1].strip()
+                if line.startswith("//"):
+                    continue
+                out.append("%s:%d: %s" % (f, ln, line[:60]))
+        return out
+    def in_run(site):
+        f, ln = site.split(":")[0], int(site.split(":")[1])
+        if f != "src/cpu.rs":
+            return False
+        src = texts[f]
+        a = src.find("pub fn run(&mut self)")
+        b = src.find("pub fn fetch(&mut self)")
+        la = src.count("\n", 0, a) + 1
+        lb = src.count("\n", 0, b) + 1
+        return la <= ln < lb
+    checks = [
+        ("state_sum_assigned_only_in_run", [x for x in assigns("state_sum") if "cpu_state_sum" not in x.split(": ", 1)[1].split("=")[0]], lambda x: in_run(x) or "state_sum: 0" in x),
+        ("bus_cpu_state_sum_assigned_only_in_run", assigns("cpu_state_sum"), lambda x: in_run(x) or "cpu_state_sum: 0" in x),
+        ("exit_addr_assigned_only_by_the_loader", assigns("exit_addr"), lambda x: x.startswith("src/elf.rs") or "exit_addr: 0" in x),
+    ]
+    for name, sites, ok in checks:
+        o = rep.add(Obl("C13/scan/" + name, "assignment scan", unit="scan", fn="(all of /repo/src, test modules excluded)"))
+        bad = [x for x in sites if not ok(x)]
+        o.status = DISCHARGED if (sites and not bad) else FAILED
+        o.detail = "assignments: %s ; not allowed: %s" % (sites, bad)
+
+
 def check_c13(prop, tier):
-    rep = new_report(prop, tier, VERUS_TECH + " (unit run: loop invariant on the time base of the extracted Cpu::run)")
+    rep = new_report(prop, tier, VERUS_TECH + " (unit run: loop invariant on the time base of the extracted Cpu::run) + mechanical scan that no other code assigns the time-base fields")
     custom_check.run_verus_unit(rep, prop, "run", "Cpu::run")
+    scan_time_base(rep)
     rep.assumptions.append("whole-run determinism is a corollary: every callee is safe Rust without clock or randomness and the host-time statements are proved non-interfering syntactically; stated, not mechanised")
     rep.assumptions.append("termination is not claimed (guest programs may loop)")
     rep.assumptions.append("cfg(test) configuration: the control-socket block is compiled out (C18 is not applicable to this technique)")
@@ -146,8 +189,36 @@ def check_custom_only(prop, tier):
     if prop == "C16":
         custom_check.run_verus_unit(rep, prop, "bus", "Bus::write_port, Bus::on_write_ddr, Bus::on_write_dr (frame)")
         rep.assumptions.append("histories: the invariant is inductive, so it holds after every interleaving of DDR writes, DR writes and pin changes; time stamps are Bus::cpu_state_sum, which only Cpu::run assigns (monotone, C13)")
-        rep.assumptions.append("message text is produced by format!(\"ioport:{:x}:{:x}:{}\") in Bus::send_io_port_value, which is stubbed (never executed under the verifier)")
+        rep.assumptions.append("message text is produced by format!(\"ioport:{:x}:{:x}:{}\") in Bus::send_io_port_value, which is stubbed under the verifier; the text, the time stamps and the announce-on-change rule are additionally enumerated natively on the real code (bounded, below)")
+        n, fails = native.c16_bounded()
+        if n is None:
+            rep.inconclusive.append("native bounded C16 enumeration did not build/run: %s" % str(fails)[-300:])
+        else:
+            for c in native.C16_CLAUSES:
+                o = rep.add(Obl("C16/bounded/" + c, "native exhaustive enumeration (bounded)", unit="native_c16_messages", fn="Bus::write, Bus::write_port, Bus::send_io_port_value, Bus::send_message (real channel)"))
+                if c in fails:
+                    o.status = FAILED
+                    o.detail = fails[c]
+                    o.witness = {"history": fails[c], "legend": "history code: base-12 digits, digit/4 = 0 write DDR, 1 write DR, 2 external input; digit%4 indexes values [00,ff,0f,a5]"}
+                else:
+                    o.status = DISCHARGED
+            rep.bounds.append("C16/bounded/*: all %d histories of depth 4 over {write DDR, write DR, external input} x {00,ff,0f,a5} on each of the 11 ports, real message text through a real channel (BOUNDED, natively, not counted as proved)" % n)
+            rep.cmds.append("cargo test --offline native_c16_messages (RUSTFLAGS=--cfg koge29_verif, KOGE29_C16=1)")
     if prop == "C17":
+        n, fails = native.c17_bounded()
+        if n is None:
+            rep.inconclusive.append("native bounded C17 stand-in did not build/run: %s" % str(fails)[-300:])
+        else:
+            for c in native.C17_CLAUSES:
+                o = rep.add(Obl("C17/bounded/" + c, "native randomized comparison with the tick reference (bounded)", unit="native_c17_bounded", fn="Timer8_0::update_tcr, update_timer8_0, InterruptController::request_interrupt (real)"))
+                if c in fails:
+                    o.status = FAILED
+                    o.detail = fails[c]
+                    o.witness = {"case": fails[c]}
+                else:
+                    o.status = DISCHARGED
+            rep.bounds.append("C17/bounded/*: %d pseudo-random timer configurations (seed VERIF_SEED) on the real code against the tick reference, incl. one random two-way partition each (BOUNDED, natively, not counted as proved)" % n)
+            rep.cmds.append("cargo test --offline native_c17_bounded (RUSTFLAGS=--cfg koge29_verif, KOGE29_C17=1)")
         rep.assumptions.append("TCR clock selections 4-7 (external clock / cascade) are outside the statement and excluded by precondition")
         rep.assumptions.append("TCORA != TCORB and both non-zero whenever a counter-clear source is selected (simultaneous events are left open by the hardware manual)")
         rep.assumptions.append("equivalence for every partition of the elapsed time = per-call contract + partition lemma + tick^(a+b) = tick^b o tick^a (definition of iteration)")
@@ -160,6 +231,25 @@ def check_custom_only(prop, tier):
 def check_c15(prop, tier):
     rep = new_report(prop, tier, "automatic panic/overflow/bounds/unwrap obligations generated by Kani inside /repo/src over every contract harness (full symbolic domains), Verus overflow obligations of the extracted units, plus err-on-unmapped clauses")
     run_kani_both(rep, prop)
+    if tier == "thorough":
+        # every dispatch target with fully symbolic words (undefined encodings included): automatic checks only
+        names = json.load(open(os.path.join(VERIF, "lib", "c07_targets.json"))).get("c15_any", [])
+        log = os.path.join(kani_run.CACHE, "logs", "C15-any.log")
+        r = kani_run.run_harnesses(["cpu::verif_hooks::kc15::" + n for n in names], harness_timeout=1800, log_path=log)
+        rep.cmds.append("(cd kani/crate && " + r["cmd"] + ")")
+        rep.logs.append(log)
+        for n in names:
+            h = r["harness"].get(n)
+            if h is None or h["status"] not in ("SUCCESSFUL", "FAILED"):
+                rep.inconclusive.append("harness %s: %s" % (n, h["status"] if h else "no result"))
+                continue
+            rep.auto_checks += h["total"]
+            for fc in h["failed_checks"]:
+                oid = custom_check.auto_id(n, fc)
+                if not any(x["id"] == oid for x in rep.extra_failed):
+                    rep.auto_failed += 1
+                    rep.extra_failed.append({"id": oid, "detail": "CBMC: FAILURE of automatic check '%s' at %s:%d in %s (harness %s, fully symbolic encoding)" % (fc["desc"], fc["file"], fc["line"], fc["func"], n), "unit": n, "function": fc["func"]})
+        rep.notes.append("thorough: %d harnesses call every dispatch target of Cpu::exec with fully symbolic instruction words (undefined encodings included)" % len(names))
     for unit, fns in (("bus", "Bus::read, Bus::write, ioport helpers"), ("irq", "request_interrupt, try_interrupt"), ("run", "Cpu::run")):
         custom_check.run_verus_unit(rep, prop, unit, fns)
     rep.assumptions.append("overflow/shift checks are the overflow-checking build configuration; panic/bounds/unwrap/division checks hold for both configurations")
